@@ -125,7 +125,7 @@ func cmdCheck(args []string) int {
 	replayDir := filepath.Join(*verif, "replays", id)
 	os.RemoveAll(replayDir)
 	var obsEv []obEvidence
-	nOb, nDis, nViol, nCover, nVac := 0, 0, 0, 0, 0
+	nOb, nDis, nViol, nCover, nVac, nCoverUnknown := 0, 0, 0, 0, 0, 0
 	solverMs := int64(0)
 	var knownHit []string
 	var deadReturns []string
@@ -136,6 +136,9 @@ func cmdCheck(args []string) int {
 		solverMs += ob.Ms
 		if ob.Cover {
 			nCover++
+			if ob.Result != "unsat" && ob.Result != "sat" {
+				nCoverUnknown++
+			}
 			if ob.Result == "unsat" {
 				if _, skip := notClaimed(&cfg, ob.Name); !skip {
 					if strings.HasSuffix(ob.Name, "#cover/requires") {
@@ -143,6 +146,11 @@ func cmdCheck(args []string) int {
 						nVac++
 					} else {
 						deadReturns = append(deadReturns, ob.Name)
+						if _, exp := cfg.ExpectedUnreachable[ob.Name]; !exp {
+							// a return point that the facts at hand exclude: every postcondition there would hold vacuously
+							fmt.Printf("UNDECIDED vacuous: %s: this return is unreachable under the contracts in force (not listed in expected_unreachable)\n", ob.Name)
+							nVac++
+						}
 					}
 				}
 			}
@@ -293,7 +301,8 @@ func cmdCheck(args []string) int {
 			"discharged_by_solver": bySolver,
 			"solver_ms_total": solverMs,
 			"load_s": loadS, "generate_s": genS, "solve_s": solveS,
-			"vacuity": map[string]interface{}{"cover_probes": nCover, "vacuous": nVac, "unreachable_points": deadReturns},
+			"vacuity": map[string]interface{}{"cover_probes": nCover, "vacuous": nVac, "unreachable_points": deadReturns, "expected_unreachable": cfg.ExpectedUnreachable,
+				"inconclusive": nCoverUnknown, "note": "a cover probe asks the solver for a model of the path to a return point; with quantified hypotheses the solvers often answer unknown: such a probe is inconclusive (not shown vacuous, not shown reachable)"},
 			"inlined_functions": sortedKeys(c.InlinedFns),
 			"effectively_constant_globals": sortedKeys(c.ConstGlobals),
 			"bounded": boundedEv,
@@ -306,8 +315,8 @@ func cmdCheck(args []string) int {
 	os.MkdirAll(filepath.Join(*verif, "evidence"), 0755)
 	jb, _ := json.MarshalIndent(ev, "", " ")
 	os.WriteFile(filepath.Join(*verif, "evidence", id+".json"), jb, 0644)
-	fmt.Printf("%s tier=%s: %d obligations, %d discharged, %d violations, %d known-finding hits, %d cover probes (%d vacuous), load %.1fs gen %.1fs solve %.1fs\n",
-		id, *tier, nOb, nDis, nViol, len(knownHit), nCover, nVac, loadS, genS, solveS)
+	fmt.Printf("%s tier=%s: %d obligations, %d discharged, %d violations, %d known-finding hits, %d cover probes (%d vacuous, %d inconclusive), load %.1fs gen %.1fs solve %.1fs\n",
+		id, *tier, nOb, nDis, nViol, len(knownHit), nCover, nVac, nCoverUnknown, loadS, genS, solveS)
 	if nViol > 0 {
 		return 1
 	}
